@@ -47,6 +47,17 @@ def gen_cases(tier, seed):
                 continue
             for sp in spellings(v):
                 add("lit-" + tag, "halt\nhalt\n" + tmpl.format(sp) + "\nhalt\n")
+    # systematic literal spellings: prefix x sign x magnitude, incl. magnitudes beyond 16 bits and negative
+    # magnitudes beyond 15 bits (x-8001 .. x-FFFF, #-32769 ..), in every literal-taking form
+    mags = [0, 1, 0xF, 0x10, 0x1F, 0x20, 0xFF, 0x100, 0x1FF, 0x3FF, 0x400, 0x7FF, 0x7FFF, 0x8000, 0x8001, 0xD000,
+            0xFC01, 0xFFDB, 0xFFE0, 0xFFE1, 0xFFF0, 0xFFF1, 0xFFFF, 0x10000, 0x1FFFF]
+    toks = []
+    for sign in ("", "-", "+"):
+        for m in mags:
+            toks += [f"x{sign}{m:X}", f"0x{sign}{m:x}", f"#{sign}{m}", f"{sign}x{m:X}", f"x{sign}0{m:X}"]
+    for tag, tmpl, bits, signed in forms:
+        for tk in toks:
+            add("spelling-" + tag, "halt\nhalt\n" + tmpl.format(tk) + "\nhalt\n")
     # every trap vector and 256
     for v in range(0, 257):
         add("trapvec", "trap x%X\n" % v)
